@@ -2,6 +2,7 @@ import NeumannModel.Common.Proto
 import NeumannModel.TwoPC.Model
 import NeumannModel.TwoPC.Recovery
 import NeumannModel.TwoPC.Restart
+import NeumannModel.TwoPC.Wal
 import NeumannModel.TwoPC.VoteSplit
 /-
   Line-protocol driver for the 2PC model (C03).  State = one `Sys`.
@@ -26,7 +27,12 @@ import NeumannModel.TwoPC.VoteSplit
                                                             checkpoint is not the present pending map)
     cphase <tx> <phase>                                    (a DOCTORED pending entry: sets the phase; `!outside`; only used to
                                                             compare recover() on every phase, also the unreachable ones)
-    dump
+    wrestart                                               (crash + a new coordinator process on the same WAL: recover_from_wal()
+                                                            + recover() + re-send, `EvW.walRestart` of Wal.lean; answer
+                                                            `wal <prepared> <committing> <aborting> rec <5 counters> dec <decisions>`;
+                                                            `!outside` when the log disagrees with an announced decision, `SysW.walCurrent`)
+    dump | dumpw                                           (dumpw: the dump followed by `|W:` and the log the coordinator has written)
+  The driver keeps the log of a WAL-backed coordinator (`SysW.wal`) along every script; it is only read by `wrestart` / `dumpw`.
   An event is tagged `!outside` when it leaves the property's alphabet: participant cleanups, lock expiry, forged
   participant YES, force_resolve, a doctored phase, a stale restore, and a timeout sweep / abort() that runs over a
   `Committing` entry (`Sys.sparesCommitting`).
@@ -338,4 +344,66 @@ def twopcStepK (k : SysK) (line : String) : SysK × String :=
     let r := twopcStep k.sys line
     ({ k with sys := r.1 }, r.2)
 
-def main : IO Unit := run twopcStepK (SysK.init [] 0 0 0)
+def showWalVote : WalVote → String
+  | .yes h => s!"y{h}"
+  | .no => "n"
+
+def showWalEntry : WalEntry → String
+  | .begin tx ps => s!"B{tx}:{dotted ps}"
+  | .vote tx sh v => s!"V{tx}.{sh}.{showWalVote v}"
+  | .phase tx to => s!"P{tx}.{showPhase to}"
+  | .complete tx => s!"X{tx}"
+  | .lockRelease tx h => s!"L{tx}.{h}"
+  | .allLocksReleased tx => s!"R{tx}"
+
+def lockHandleOf : WalEntry → Nat
+  | .lockRelease _ h => h
+  | _ => 0
+
+def isLockRelease : WalEntry → Bool
+  | .lockRelease _ _ => true
+  | _ => false
+
+/-- the `LockRelease` records of one `commit` come in `HashMap` order in the code: each run is shown sorted by handle -/
+def canonWal (run : List WalEntry) : List WalEntry → List WalEntry
+  | [] => sortOn lockHandleOf run
+  | e :: r => if isLockRelease e then canonWal (run ++ [e]) r else sortOn lockHandleOf run ++ e :: canonWal [] r
+
+/-- what the coordinator call behind a protocol line appends to its log -/
+def walOfLine (s : Sys) (line : String) : List WalEntry :=
+  match words line with
+  | "begin" :: shs :: _ => match parseNats shs with | some shards => s.coord.walOfBegin shards | none => []
+  | ["deliver", i] => match i.toNat? with | some i => s.walOf (.deliver i) | none => []
+  | ["ccommit", t] => match t.toNat? with | some t => s.coord.walOfCommit t | none => []
+  | ["cabort", t] => match t.toNat? with | some t => s.coord.walOfAbort t | none => []
+  | ["cvote", t, sh, v, sim] =>
+    match t.toNat?, sh.toNat?, parseVote v, parsePairs sim with
+    | some t, some sh, some v, some sm =>
+      s.coord.walOfVote t sh v (fun i j => sm.contains (i, j) || sm.contains (j, i))
+    | _, _, _, _ => []
+  | _ => []
+
+/-- the state with the coordinator's log (`SysW`, Wal.lean) around `twopcStepK` -/
+def twopcStepW (w : SysW) (line : String) : SysW × String :=
+  match words line with
+  | "init" :: _ =>
+    let r := twopcStepK w.k line
+    (⟨r.1, []⟩, r.2)
+  | ["wrestart"] =>
+    let s := w.k.sys
+    let rec0 := classify (scanLog w.wal)
+    let c0 := s.coord.recoverFromWal s.now w.wal
+    let st := (c0.recover s.now).2
+    let w' := w.stepW .walRestart
+    let s' := w'.k.sys
+    let dec := (sortOn (·.1) s'.coord.pendingDecisions).map (fun e => s!"{e.1}:{showPhase e.2}")
+    let tag := if w.walCurrent then "" else " !outside"
+    (w', s!"wal {rec0.prepared.length} {rec0.committing.length} {rec0.aborting.length} rec {st.pendingPrepare} {st.pendingCommit} {st.pendingAbort} {st.timedOut} {st.completed} dec {if dec.isEmpty then "-" else ",".intercalate dec}{tag} | {" ".intercalate ((s'.msgs.drop s.msgs.length).map showMsg)}")
+  | ["dumpw"] =>
+    let r := twopcStepK w.k "dump"
+    (w, s!"{r.2}|W:{" ".intercalate ((canonWal [] w.wal).map showWalEntry)}")
+  | _ =>
+    let r := twopcStepK w.k line
+    if r.2 = "bad-op" then (w, r.2) else (⟨r.1, w.wal ++ walOfLine w.k.sys line⟩, r.2)
+
+def main : IO Unit := run twopcStepW (SysW.init [] 0 0 0)
